@@ -223,7 +223,7 @@ impl Encoder for TTYEncoder {
                         out.write_all(b";")?;
                     }
                     for b in cap.as_bytes() {
-                        write!(out, "{:x}", b)?;
+                        write!(out, "{:02x}", b)?;
                     }
                 }
                 write!(out, "\x1b\\")?;
